@@ -150,6 +150,10 @@ def generate(rng, config):
                                    "installed": inst2}
     if config == "failing":
         case["plan"] = _gen_plan(rng)
+        if case["plan"].get("early_exit") and rng.random() < 0.85:
+            clauses = [list(c) for c in clauses]
+            clauses.insert(rng.randint(0, len(clauses)), [])
+            case["clauses"] = clauses
     elif config == "extended":
         case["plan"] = {"extended": rng.choice(
             ["unlink_fails", "mktemp_fails", "unlink_fails_once"])}
@@ -206,6 +210,11 @@ def _gen_plan(rng):
         return {"stdout": "nonascii"}
     if r < 0.58:
         return {"result_file": "missing", "stdout": "empty"}
+    if r < 0.70:
+        # not a failure at all: the solver answers as soon as it meets an
+        # empty clause and exits without reading the rest of its input
+        return {"early_exit": True,
+                "pipe_capacity": rng.choice([0, 1, 7, 64, 4096])}
     # death mid-output, every offset enumerated in execute
     return {"stdout": "cut", "result_file": "cut", "cut_at": "all"}
 
@@ -494,7 +503,12 @@ def _one_call(case, ctx, F, c, ci, route, plan, tmp, ref_verdict, clauses, n,
     if conv != "stdin_stdout" and rec.get("stdin"):
         bad("wrong-convention", "formula sent on stdin to a file solver")
 
-    if consistent:
+    if rec.get("deadlock"):
+        bad("deadlock", "the answer of a stdin solver was awaited before "
+            "its standard input was closed: both sides wait for ever")
+    if rec.get("early_exit"):
+        ctx.probe("solver answered and exited before reading all its input")
+    elif consistent:
         if "clauses" not in rec:
             bad("peer-got-no-formula", "peer state %r" % rec.get("peer"))
         if rec["n"] != n or [tuple(x) for x in rec["clauses"]] != clauses:
